@@ -470,7 +470,7 @@ Definition judge_pipe (c : pcase) : N :=
       | Some (_, sigma) => sigma && negb wf
       | None => wf && spec_walk its [] w0 snaps rerr
       end in
-  let dom := wf && forallb tracking_safe its && forallb no_one_to_many its
+  let dom := wf && forallb tracking_safe its
              && match rerr with None => true | _ => false end in
   bits agree spec dom (existsb has_conds its).
 
